@@ -408,3 +408,155 @@ def run_quaternion(ctx: Ctx) -> None:
             seen += 1
     except Unsupported as e:
         raise AnalysisError(f"T7 matrix->quaternion: {e}")
+
+
+# --------------------------------------------------------------------------- T8 parameter getters / setters of the rotation-like transforms
+def run_accessors(ctx: Ctx) -> None:
+    """spatial/linear.py: squashing re-parameterisations and their inverses (C08, last mechanism)."""
+    prog = ctx.prog
+    L = "deepali.spatial.linear"
+    Grid = prog.cls("deepali.core.grid", "Grid")
+    fM = prog.func(L, "EulerRotation.matrix_")
+    fAs = prog.func(L, "EulerRotation.angles_")
+    fAg = prog.func(L, "EulerRotation.angles")
+    fA = prog.func("deepali.core.affine", "euler_rotation_angles")
+    for f in (fM, fAs, fAg, prog.func(L, "EulerRotation.tensor")):
+        ctx.fn(f)
+    ctx.rule("T8.accessors", "parameter getters/setters of the transforms round-trip to the same rotation/scale: EulerRotation.angles_(a).angles() "
+                             "= a and tensor() = R_order(a) for Parameter (tanh squashing) and buffer parameters and every stored order; "
+                             "matrix_(R_order(a)) recovers a with the transform's own order (atan2/acos resolved on the principal branch) so that "
+                             "tensor() = R again; QuaternionRotation.quaternion_(q).quaternion() = q, tensor() is the Hamilton matrix of q, "
+                             "matrix_ stores the quaternion computed from the matrix; *Scaling.scales_(s).scales() = s; Shearing.angles_ "
+                             "round-trips")
+
+    def resolve_hooks(cs, a):
+        def atan2_hook(y, x):
+            yy, xx = to_rat(y), to_rat(x)
+            for i, (c, s) in enumerate(cs):
+                # principal branch: (y, x) a positive multiple of (sin a_i, cos a_i); positivity of the common factor is assumed
+                if (yy * c - xx * s).is_zero() and not (yy.is_zero() and xx.is_zero()):
+                    return STensor.from_flat([a[i]], list(y.shape))
+            return STensor.from_flat([sfunc("atan2", yy, xx)], list(y.shape))
+
+        def acos_hook(z):
+            zz = to_rat(z)
+            for i, (c, s) in enumerate(cs):
+                if zz.equals(c):
+                    return STensor.from_flat([a[i]], list(z.shape))
+            return STensor.from_flat([sfunc("acos", zz)], list(z.shape))
+        return atan2_hook, acos_hook
+
+    for order_arg in (None, "ZXZ", "XZX", "xzx", "Rx o Rz o Rx"):
+        for kind in (True, False):
+            def th(order_arg=order_arg, kind=kind):
+                reset_relations()
+                facts = fresh_facts()
+                it = make_interp(ctx)
+                a, cs = _angles(3)
+                grid = it.new(Grid, size=(3, 3, 3))
+                ci = prog.cls(L, "EulerRotation")
+                t = it.new(ci, grid, params=kind) if order_arg is None else it.new(ci, grid, params=kind, order=order_arg)
+                order = it.getattr(t, "order")
+                fO = prog.func("deepali.core.affine", "euler_rotation_order")
+                order = it.call(fO, None, ndim=3) if order_arg is None else "".join(ch for ch in order_arg.upper().replace("R", "") if ch in "XYZ")
+                R = symt.matmul(symt.matmul(elem(order[0], *cs[0]), elem(order[1], *cs[1])), elem(order[2], *cs[2]))
+                ang = STensor.from_flat(a, [1, 3])
+                it.method(t, "angles_", ang)
+                if not teq(it.method(t, "angles"), ang):
+                    return False, f"angles_(a).angles() = {tstr(it.method(t, 'angles'))} != a"
+                if not teq(it.method(t, "tensor")[0], R):
+                    return False, "tensor() after angles_(a) is not the product of elementary rotations in the stored order"
+                t2 = it.new(ci, grid, params=kind) if order_arg is None else it.new(ci, grid, params=kind, order=order_arg)
+                o1, o2 = tae._TORCH["atan2"], tae._TORCH["acos"]
+                tae._TORCH["atan2"], tae._TORCH["acos"] = resolve_hooks(cs, a)
+                try:
+                    it.method(t2, "matrix_", R.unsqueeze(0))
+                finally:
+                    tae._TORCH["atan2"], tae._TORCH["acos"] = o1, o2
+                got = it.method(t2, "tensor")[0]
+                if not teq(got, R):
+                    return False, (f"EulerRotation(order={order_arg!r}).matrix_(R).matrix() != R: the angles extracted by matrix_ "
+                                   f"({tstr(it.method(t2, 'angles'))[:120]}) do not reproduce the rotation")
+                return True, ""
+            _guard(ctx, "T8.accessors", f"euler:{order_arg}:{kind}", fM, f"EulerRotation order={order_arg!r} params={'parameter' if kind else 'buffer'}", th)
+
+    def th2d():
+        reset_relations()
+        fresh_facts()
+        it = make_interp(ctx)
+        a, cs = _angles(1)
+        grid = it.new(Grid, size=(3, 3))
+        for kind in (True, False):
+            t = it.new(prog.cls(L, "EulerRotation"), grid, params=kind)
+            ang = STensor.from_flat(a, [1, 1])
+            it.method(t, "angles_", ang)
+            if not teq(it.method(t, "angles"), ang):
+                return False, "2-D angles_(a).angles() != a"
+            c, s = cs[0]
+            if not teq(it.method(t, "tensor")[0], STensor.from_nested([[c, -s], [s, c]])):
+                return False, "2-D tensor()"
+        return True, ""
+    _guard(ctx, "T8.accessors", "euler:2d", fAs, "EulerRotation D=2", th2d)
+
+    # quaternion
+    fQm = prog.func(L, "QuaternionRotation.matrix_")
+    fQs = prog.func(L, "QuaternionRotation.quaternion_")
+    fR2Q = prog.func("deepali.core._kornia", "rotation_matrix_to_quaternion")
+    ctx.fn(fQm)
+    ctx.fn(fQs)
+    for kind in (True, False):
+        def thq(kind=kind):
+            reset_relations()
+            fresh_facts()
+            it = make_interp(ctx)
+            x, y, z = Rat.atom("qx"), Rat.atom("qy"), Rat.atom("qz")
+            declare_square("qw", Poly.const(1) - x.num * x.num - y.num * y.num - z.num * z.num)
+            w = Rat.atom("qw")
+            q = STensor.from_flat([w, x, y, z], [1, 4])
+            grid = it.new(Grid, size=(3, 3, 3))
+            ci = prog.cls(L, "QuaternionRotation")
+            t = it.new(ci, grid, params=kind)
+            it.method(t, "quaternion_", q)
+            if not teq(it.method(t, "quaternion"), q):
+                return False, "quaternion_(q).quaternion() != q"
+            ref = quat_ref(w, x, y, z)
+            if not teq(it.method(t, "tensor")[0], ref):
+                return False, "tensor() is not the Hamilton matrix of the stored (w,x,y,z) quaternion"
+            seen = []
+
+            def fake(interp, args, kwargs):
+                seen.append(args[0])
+                return q
+            it.overrides[fR2Q.key] = fake
+            t2 = it.new(ci, grid, params=kind)
+            it.method(t2, "matrix_", ref.unsqueeze(0))
+            if len(seen) != 1 or not teq(seen[0][0], ref):
+                return False, "matrix_ does not convert the given matrix with rotation_matrix_to_quaternion"
+            if not teq(it.method(t2, "tensor")[0], ref):
+                return False, "matrix_(R).matrix() != R"
+            return True, ""
+        _guard(ctx, "T8.accessors", f"quaternion:{kind}", fQm, f"QuaternionRotation params={'parameter' if kind else 'buffer'}", thq)
+
+    # scalings / shearing
+    for cls, get, set_, nparam in (("IsotropicScaling", "scales", "scales_", lambda D: 1), ("AnisotropicScaling", "scales", "scales_", lambda D: D),
+                                   ("Shearing", "angles", "angles_", lambda D: D * (D - 1) // 2)):
+        ci = prog.cls(L, cls)
+        fS = prog.find_method(ci, set_)
+        ctx.fn(fS)
+        ctx.fn(prog.find_method(ci, get))
+        for D in (2, 3):
+            for kind in (True, False):
+                def ths(cls=cls, ci=ci, get=get, set_=set_, n=nparam(D), D=D, kind=kind):
+                    reset_relations()
+                    facts = fresh_facts()
+                    it = make_interp(ctx)
+                    grid = it.new(Grid, size=(3,) * D)
+                    t = it.new(ci, grid, params=kind)
+                    vals = STensor.symbols("k", [1, n])
+                    for v in vals.flat():
+                        facts.declare_positive(v)
+                    it.method(t, set_, vals)
+                    if not teq(it.method(t, get), vals):
+                        return False, f"{cls}.{set_}(v).{get}() = {tstr(it.method(t, get))[:120]} != v"
+                    return True, ""
+                _guard(ctx, "T8.accessors", f"{cls}:D={D}:{kind}", fS, f"{cls} D={D} params={'parameter' if kind else 'buffer'}", ths)
